@@ -148,6 +148,7 @@ def evaluate(case):
         spots = [(i_node, True), (i_node, False), (0, False), (1, True), (n_ - 2, False), (n_ - 1, True)]
         for i_node, on_node in spots:
             p_i = float(p[i_node]) if on_node else float(0.5 * (p[i_node] + p[i_node + 1]))
+            first = (i_node, on_node) == spots[0]
             with warnings.catch_warnings(), np.errstate(all="ignore"):
                 warnings.simplefilter("ignore")
                 try:
@@ -159,6 +160,14 @@ def evaluate(case):
                                                k_rw_max=K["ends"][1], k_rg_max=K["ends"][2])
                         krt_in = fp.relative_permeabilities_twophase(prm, 0.1)
                     fl = fp.FlowPropertiesTwoPhase.from_table(tbf, krt_in, rho, 0.1, KRS[case["kr"]].get("sw", 0.1), p_i)
+                    if first:
+                        # the reference densities are a MAPPING: the same three entries listed water-first give the same object
+                        rho_w_first = {k: rho[k] for k in ("rho_w0", "rho_g0", "rho_o0")}
+                        fl_o = fp.FlowPropertiesTwoPhase.from_table(tbf, krt_in, rho_w_first, 0.1, KRS[case["kr"]].get("sw", 0.1), p_i)
+                        if not np.array_equal(np.asarray(fl_o.pvt_props["m-scaled"], dtype=float), np.asarray(fl.pvt_props["m-scaled"], dtype=float)):
+                            viol.append(V("from_table/density-mapping-order", "from_table with the reference densities listed in another key "
+                                          "order (water first) tabulates another pseudopressure: the densities are taken by position, not by name",
+                                          case=case))
                 except Exception as e:  # noqa: BLE001
                     viol.append(V("from_table/raises", f"{type(e).__name__}: {e}", case=case))
                     break
@@ -194,6 +203,12 @@ def evaluate(case):
                                   f"expected within [1, 1 + {bound:.3g}]", case=case))
             if any(not np.array_equal(tbf[k], snap_in[k]) for k in snap_in) or set(tbf) != set(snap_in):
                 viol.append(V("from_table/caller-table-modified", "from_table modified the caller's table", case=case))
+            # the object's own table keeps the (unscaled) mobility integral next to the scaled column
+            if "pseudopressure" in fl.pvt_props and first:
+                m_kept = np.asarray(fl.pvt_props["pseudopressure"], dtype=float)
+                if not np.allclose(m_kept, want, rtol=1e-10, atol=1e-12 * np.max(np.abs(want))):
+                    viol.append(V("from_table/stored-pseudopressure", "the `pseudopressure` column of the object built by from_table is not "
+                                  "the integral of the documented mobility (e.g. it was overwritten by the scaled column)", case=case))
                 break
             for frac in (0.0, 0.3, 0.999):
                 p_f = p[0] + frac * (p_i - p[0])
